@@ -31,9 +31,20 @@ def build_opdef(d):
     return ext.OpDef(d["name"], ext.OpDefSig(sig, binary=d["binary"]), d["description"], dict(MISC[d["misc"]]))
 
 
+def _value(v):
+    """wire-shaped value -> Python value through the constructors (extension constants are NOT obtained by decoding: the decoder is
+    one of the two directions under test)"""
+    from hugr import val
+    if v["v"] == "Extension":
+        return val.Extension(v["value"]["c"], W.dec_type(v["typ"]), v["value"]["v"], list(v["extensions"]))
+    if v["v"] == "Tuple":
+        return val.Tuple(*[_value(x) for x in v["vs"]])
+    return W.dec_value(v)
+
+
 def build_value(d):
     from hugr import ext
-    return ext.ExtensionValue(d["name"], W.dec_value(d["val"]))
+    return ext.ExtensionValue(d["name"], _value(W.from_tla(d["val"])))
 
 
 def project(e) -> dict:
@@ -103,7 +114,7 @@ def run(ctx: Ctx) -> None:
     wd = workdir("c10")
     try:
         pools = ("CONSTANT TypeDefs <- PoolT\nCONSTANT OpDefs <- PoolO\nCONSTANT Values <- PoolV\n")
-        cfg = "INIT MCInit\nNEXT MCNext\n" + pools + "INVARIANT OwnerInReqs\nINVARIANT RoundTrip\nVIEW View\nACTION_CONSTRAINT Emit\nCHECK_DEADLOCK FALSE\n"
+        cfg = "INIT MCInit\nNEXT MCNext\n" + pools + f"CONSTANT MaxAdds = {3 if ctx.tier == 'quick' else 5}\nCONSTRAINT Small\n" + "INVARIANT OwnerInReqs\nINVARIANT RoundTrip\nVIEW View\nACTION_CONSTRAINT Emit\nCHECK_DEADLOCK FALSE\n"
         n = [0]
 
         def sink(ln):
